@@ -1930,10 +1930,10 @@ func (schema *Schema) visitJSONObject(settings *schemaValidationSettings, value 
 			reqRO := settings.asreq && propSchema.Value.ReadOnly && !settings.readOnlyValidationDisabled
 			repWO := settings.asrep && propSchema.Value.WriteOnly && !settings.writeOnlyValidationDisabled
 
-			if f := settings.defaultsSet; f != nil && value[propName] == nil {
+			if _, present := value[propName]; !present && settings.defaultsSet != nil {
 				if dflt := propSchema.Value.Default; dflt != nil && !reqRO && !repWO {
 					value[propName] = deepcopy.Copy(dflt) // never hand the document's own default to the request
-					settings.onceSettingDefaults.Do(f)
+					settings.onceSettingDefaults.Do(settings.defaultsSet)
 				}
 			}
 
